@@ -130,6 +130,15 @@ CHECKS["C13"] = dict(
     design="5/C13",
 )
 
+CHECKS["C11"] = dict(
+    technique="round-trip property test: ast.dump (positions and Constant.kind ignored, docstrings modulo whitespace) and the multiset of literal values must be invariant under each layout stage, over generated literal-heavy sources",
+    text="Literal-heavy sources, odd indentation, import blocks with interleaved literals, the zoo and repository examples go through the pre-"
+         "normalisation prefix, fix_line_lengths at four widths, fix_import_spacing, rmspace, the blank-line limiter, the whitespace diff minimiser on "
+         "perturbed pairs, the original-quoting restoration on re-quoted pairs and format_code on rule-free inputs; tree and literal values must not change.",
+    note="Four design-level findings (F-C11-01..04: text-level normalisation reaches into literals) are excluded by construction with named input predicates and counted; sort_imports changes statement order by design and is left to C18.",
+    design="5/C11",
+)
+
 NOT_YET = {}
 
 
